@@ -34,9 +34,7 @@ for round in 1 2 3; do
   M=$(missing)
   [ -z "$M" ] && break
   FILTER=""
-  # the junit classname is the binary id: `bugstalker` for unit tests, `bugstalker::dap` etc. for the integration
-  # test binaries - strip one and two components, whichever names the test
-  for t in $M; do n=${t#*::}; m=${n#*::}; FILTER="$FILTER${FILTER:+ | }test(=$n) | test(=$m)"; done
+  for t in $M; do n=${t#*::}; n2=${n#*::}; FILTER="$FILTER${FILTER:+ | }test(=$n) | test(=$n2)"; done
   (cd "$R" && cargo nextest run --workspace --no-fail-fast --tool-config-file pb:/w/lib/nextest.toml --profile pb --test-threads 2 --offline -E "$FILTER") >> "$LOG" 2>&1
   collect
 done
